@@ -21,6 +21,11 @@ func Document(r *rand.Rand, maxDepth, maxBlocks, maxLines int, st Stats) Doc {
 	return document(&Gen{R: r, MaxDepth: maxDepth, MaxBlock: maxBlocks, MaxLines: maxLines, St: st})
 }
 
+// DocumentTabsAnywhere is Document with tabs that may start inside the spaces after a container marker.
+func DocumentTabsAnywhere(r *rand.Rand, maxDepth, maxBlocks, maxLines int, st Stats) Doc {
+	return document(&Gen{R: r, MaxDepth: maxDepth, MaxBlock: maxBlocks, MaxLines: maxLines, St: st, TabInsideRun: true})
+}
+
 // DocumentNoTabs draws a document that contains no tab character (for relations whose statement excludes tabs).
 func DocumentNoTabs(r *rand.Rand, maxDepth, maxBlocks, maxLines int, st Stats) Doc {
 	return document(&Gen{R: r, MaxDepth: maxDepth, MaxBlock: maxBlocks, MaxLines: maxLines, St: st, NoTabs: true})
@@ -90,12 +95,24 @@ func document(g *Gen) Doc {
 		} else if !g.NoTabs && l.tabN > 0 && g.chance(1, 3) {
 			// a tab after a block quote or list marker, reaching the same columns as the spaces it replaces
 			c := l.tabAt
-			width := 4 - (c+1)%4
-			if l.tabN >= width && c+1+width <= len(s) && strings.TrimLeft(s[c+1:c+1+width], " ") == "" && !strings.Contains(s[:c+1], "\t") {
-				s = s[:c+1] + "\t" + s[c+1+width:]
-				if s[c] == '>' {
+			// the tab starts directly after the marker or, sometimes, o columns into the structural spaces that follow it
+			// ("> " TAB "- a": marker, its space, then a tab that stands for the remaining columns up to the next tab stop)
+			o := 0
+			if l.tabN > 1 && g.TabInsideRun && g.chance(1, 2) && strings.TrimSpace(s[c+1:]) != "" {
+				// (not on whitespace-only lines: how much white space a blank line inside a code block keeps when a tab straddles
+				// the indentation is a deviation seen on the unchanged tree and deliberately not constructed - DESIGN section 6)
+				o = 1 + g.pick(l.tabN-1)
+			}
+			start := c + 1 + o
+			width := 4 - start%4
+			if o+width <= l.tabN && start+width <= len(s) && strings.TrimLeft(s[c+1:start+width], " ") == "" && !strings.Contains(s[:start], "\t") {
+				s = s[:start] + "\t" + s[start+width:]
+				switch {
+				case o > 0:
+					g.St.add("indent:tab-inside-the-spaces-after-a-marker")
+				case s[c] == '>':
 					g.St.add("indent:tab-after-quote-marker")
-				} else {
+				default:
 					g.St.add("indent:tab-after-list-marker")
 				}
 			}
@@ -178,13 +195,14 @@ func (g *Gen) indent(noIndent bool) string {
 // render produces the Markdown lines of one block. noIndent forbids leading indentation of the block's first line.
 func (g *Gen) render(b *block, noIndent bool) []mline {
 	switch b.k {
-	case kPara, kATX, kBreak:
+	case kPara, kATX, kBreak, kSetext:
 		out := append([]mline(nil), b.lines...)
-		out[0].s = g.indent(noIndent) + out[0].s
-		return out
-	case kSetext:
-		out := append([]mline(nil), b.lines...)
-		out[0].s = g.indent(noIndent) + out[0].s
+		ind := g.indent(noIndent)
+		out[0].s = ind + out[0].s
+		if g.TabInsideRun && out[0].structural == 0 {
+			// the one to three columns of extra leading indentation are structural too: inside a container a tab may stand for them
+			out[0].structural = len(ind)
+		}
 		return out
 	case kIndented, kHTML:
 		return append([]mline(nil), b.lines...)
@@ -308,6 +326,9 @@ func (g *Gen) render(b *block, noIndent bool) []mline {
 				switch {
 				case j == 0 && !blankStart:
 					nl := mline{s: ind + marker + strings.Repeat(" ", sp) + l.s}
+					if g.TabInsideRun {
+						nl.structural = len(ind)
+					}
 					if l.tabN > 0 {
 						nl.tabAt, nl.tabN = l.tabAt+len(ind)+len(marker)+sp, l.tabN
 					}
